@@ -20,14 +20,14 @@ RULE = ("random factor pairs over a 6-variable universe (scopes disjoint/nested/
         "in-place and out-of-place, with operand snapshots before/after and after mutating the result; 'perm' cases "
         "run every axis permutation of both operands (<=4 variables); 'eq' cases probe == just inside/outside "
         "atol+rtol|b| and under axis/state permutations; 'err' cases the rejection paths; 'fdict' cases: two FactorDicts over the same cliques whose same-scope factors list the variables in DIFFERENT axis orders (equal and unequal cardinalities): dot (both directions, self) against the model (total of the modelled product table) and the brute-force sum over named assignments of f*g, dict +/- against the modelled DiscreteFactor.sum, const*/+number, <d1,d1-d2> bilinearity, from_dataframe against row counts; 'fset' cases FactorSet product/divide/marginalize (in place and out of place), factorset_product/factorset_divide, copy, the copying constructor, and FactorDict const*, +number, +, -, dot, product on sets of pairwise distinct factors, compared with a Python brute force over named assignments (a FactorSet is the multiset of its factors; not modelled in Coq beyond the store-model purity theorem), with operand snapshots, `is`-sharing checks and mutation of the result (in-place marginalize, values += 1, field rebinding on every member factor); numpy and torch backends. "
-        "Each op is compared literally with the model (variable order, cardinalities, shape, flat table, state-name "
+        "GENERALISATION CLASSES: A sessions - 'session' cases run 5-8 IN-PLACE operations (product/sum/divide/marginalize/maximize/reduce/normalize/scalar */+/set_value, with observe steps str/repr/scope/get_cardinality/copy/hash/==/identity_factor/sample that must not change the object) on ONE factor object, the model following step by step, after every step: literal comparison, == a freshly built object in both directions, a changed object must change its hash; B argument purity - 'purity' cases snapshot every caller argument (variables list/tuple, cardinality list/ndarray, values list/tuple/ndarray flat/shaped/other.values/reused buffer/torch tensor, state_names dict and inner lists, marginalize/maximize/reduce/get_cardinality/assignment arguments, the from_dataframe frame) before/after the call and after wrecking the result, and reuse the same argument object for a second call on other data; C result independence - every out-of-place result is mutated and operands re-compared, the same call is repeated and must give a distinct, correct object; D pandas - FactorDict.from_dataframe with RangeIndex/shifted/permuted/gapped/duplicate/string index, shuffled column order, an unused column, int/str/bool/categorical(with unused categories)/constant columns, substring column names, compared with row counts (DiscreteFactor.sample only as a no-mutation/columns check: its law is C07's); E names - variable name styles str/int/tuple/substr (x1,x10,x,x11..)/mixed int+str+tuple in one factor (factor_sum_product rejects mutually unorderable names: opt_einsum documents comparable labels - tolerated exactly there), no format keywords exist in these files; F state names - default, permuted/shifted ints, str, tuple, mixed, bool (True/False), names equal across variables; operands disagreeing on a shared variable's state list are outside the property's stated precondition; G sizes - 'big' cases with 9-10 variables per factor out of 12 (small-int, int, str, mixed names), cardinality 1, zero-variable factors, empty argument lists, == with explicit atol 0 / 2^-10 / 1; H magnitudes - 'mag' cases with per-entry exponents 2^-480..2^480 compared purely RELATIVELY (1e-9) to the model's exact value, == inside/outside rtol at these magnitudes, totals down to 2^-480 (inputs chosen so results stay in the normal float range: under/overflow is not modelled; numpy only, because torch.Tensor(list) passes through float32 - torch cases use float32-exact dyadic values); I backends - every stream numpy and torch except mag and from_dataframe; J variants - inplace True/False for every method, operators and reflected operators, show_warnings, atol; K rejected calls - a LATER invalid argument after valid ones for marginalize/maximize/reduce out of place (operand unchanged) and in place for up-front rejections (object unchanged); in-place calls rejected late (bad state number, duplicate variable) leave pgmpy's object half-modified - outside the property text, reported, not flagged; L orders - hash seeds, every axis order, state_names dict key order != variable order, evidence/variable list orders, set orders as model parameters; M budget - tools/check.py.  Each op is compared literally with the model (variable order, cardinalities, shape, flat table, state-name "
         "dict) and with the brute-force named-assignment definition.  Non-trivial: at least one operand with >= 2 "
         "variables of unequal cardinality or a permuted state list; distinct = distinct canonical case content")
 TRUSTED_BASE = ["numpy/torch primitives einsum, swapaxes, max, basic/None/list indexing, broadcasting, allclose "
                 "(modelled by their documented meaning in coq/C04/Tensor.v)",
                 "python set iteration order is an explicit order parameter of the model, read off pgmpy's result",
                 "IEEE-754: inputs are dyadic rationals so floats are exact; results compared at 1e-9 relative"]
-ASSUMPTIONS = ["variable and state names are interned by the harness (ints are themselves, str -> 10^6+k, "
+ASSUMPTIONS = ["torch backend: torch.Tensor(list) converts through float32 (pinned by a baseline test), so torch cases use float32-exact dyadic values; the magnitude stream is numpy only", "variable and state names are interned by the harness (ints are themselves, str -> 10^6+k, "
                "tuple -> 2*10^6+k)", "operands sharing a variable agree on its cardinality and state list",
                "maximize is modelled by the max-product semiring: non-negative tables only"]
 
@@ -54,21 +54,31 @@ def zname(x):
     return int(x)
 
 
+NAME_TABLES = {
+    "str": ["V%d" % i for i in range(16)],
+    "int": [3 * i + 1 for i in range(16)],
+    "smallint": list(range(16)),                       # set iteration order of small ints (>= 9 of them)
+    "tuple": [("v", i) for i in range(16)],
+    # one name a substring / prefix of another
+    "substr": ["x1", "x10", "x", "x11", "x1_0", "xx", "x100", "x2", "x20", "x12", "x110", "x01", "x1x", "xx1", "x_", "x0"],
+    # int / str / tuple in one factor (do not sort against each other)
+    "mixed": ["a", 3, ("t", 1), "b", 7, ("t", 2), "c", 11, ("u", 1), "d", 0, ("u", 2), "e", 5, ("w", 0), "f"],
+}
+_NAME_INV = {st: {repr(nm): i for i, nm in enumerate(tab)} for st, tab in NAME_TABLES.items()}
+STR_VSTYLES = ("str", "substr")
+
+
 def vname(style, v):
-    return {"str": "V%d" % v, "int": 3 * v + 1, "tuple": ("v", v)}[style]
+    return NAME_TABLES[style][v]
 
 
 def vid(style, nm):
-    if style == "str":
-        return int(nm[1:])
-    if style == "int":
-        return (nm - 1) // 3
-    return nm[1]
+    return _NAME_INV[style][repr(nm)]
 
 
 # ------------------------------------------------------------------ case generation
 def gen_universe(rng, nv=6, cards=None):
-    style = rng.choice(["default", "default", "intperm", "str", "tuple", "mixed"])
+    style = rng.choice(["default", "default", "intperm", "str", "tuple", "mixed", "bool"])
     card, states = {}, {}
     for v in range(nv):
         c = cards[v] if cards else rng.choice([1, 2, 2, 3, 3, 4])
@@ -84,11 +94,16 @@ def gen_universe(rng, nv=6, cards=None):
             st = [STR0 + k for k in rng.sample(range(8), c)]
         elif style == "tuple":
             st = [TUP0 + k for k in rng.sample(range(8), c)]
+        elif style == "bool":
+            # True/False for <= 2 states (True == 1 and hash(True) == hash(1): the model sees 1/0), ints otherwise
+            st = list(range(c))
+            rng.shuffle(st)
         else:
             pool = [0, 1, 2, 3, STR0, STR0 + 1, STR0 + 2, TUP0, TUP0 + 1]
             st = rng.sample(pool, c)
         states[v] = st
-    return {"sstyle": style, "vstyle": rng.choice(["str", "str", "int", "tuple"]),
+    return {"sstyle": style, "vstyle": rng.choice(["str", "str", "int", "tuple", "substr", "mixed"]),
+            "snrev": rng.random() < 0.3,      # state_names dict given in another key order than the variables
             "card": [card[v] for v in range(nv)], "states": [states[v] for v in range(nv)]}
 
 
@@ -142,13 +157,21 @@ def gen_scopes(rng, nv=6):
     return rel, pool[:rng.randint(0, 4)], rng.sample(pool, rng.randint(0, 4))
 
 
+def _prod(xs):
+    n = 1
+    for x in xs:
+        n *= x
+    return n
+
+
 def cases(tier, seed):
     rng = random.Random(seed)
     out = []
     npair, nperm, neq, nerr = (420, 40, 160, 60) if tier == "quick" else (4200, 400, 1600, 300)
     nalign = 80 if tier == "quick" else 800
     nfset = 120 if tier == "quick" else 1200
-    nfdict = 160 if tier == "quick" else 1600
+    nfdict = 120 if tier == "quick" else 1600
+    nsess, npure, nbig, nmag = (100, 60, 16, 60) if tier == "quick" else (1000, 600, 160, 600)
     for i in range(npair):
         U = gen_universe(rng)
         rel, fv, gv = gen_scopes(rng)
@@ -232,10 +255,78 @@ def cases(tier, seed):
             d2.append(gen_factor(rng, U, ws, neg=rng.random() < 0.3, zeros=0.2))
         out.append({"kind": "fdict", "backend": "torch" if i % 4 == 3 else "numpy", "U": U, "d1": d1, "d2": d2,
                     "equal_cards": equal, "qseed": rng.randint(0, 10**9)})
+    # A/C/J: a session of in-place operations on ONE factor object, the model following step by step
+    for i in range(nsess):
+        U = gen_universe(rng)
+        fv = rng.sample(range(6), rng.randint(1, 3))
+        F = gen_factor(rng, U, fv, zeros=0.2)
+        cur, steps = list(fv), []
+        size = lambda vs: _prod(U["card"][v] for v in vs)
+        for _ in range(rng.randint(5, 8)):
+            kind = rng.choice(["product", "sum", "marginalize", "maximize", "reduce", "normalize", "scale", "shift",
+                               "set_value", "divide", "observe", "observe"])
+            if kind in ("product", "sum"):
+                gv = rng.sample(range(6), rng.randint(0, 3))
+                if size(set(cur) | set(gv)) > 200:
+                    continue
+                steps.append([kind, gen_factor(rng, U, gv, zeros=0.2)])
+                cur = cur + [v for v in gv if v not in cur]
+            elif kind in ("marginalize", "maximize"):
+                X = rng.sample(cur, rng.randint(0, min(2, len(cur))))
+                steps.append([kind, X])
+                cur = [v for v in cur if v not in X]
+            elif kind == "reduce":
+                X = rng.sample(cur, rng.randint(0, min(2, len(cur))))
+                steps.append([kind, [[v, rng.choice(U["states"][v])] for v in X]])
+                cur = [v for v in cur if v not in X]
+            elif kind == "divide":
+                gv = rng.sample(cur, rng.randint(0, len(cur)))
+                G = gen_factor(rng, U, gv, zeros=0.0)
+                steps.append([kind, G])
+            elif kind == "set_value":
+                steps.append([kind, [rng.randrange(U["card"][v]) for v in cur], rng.choice([0, 1, 5, 0.25])])
+            elif kind in ("scale", "shift"):
+                steps.append([kind, rng.choice([2, 3, 0.5, 1])])
+            else:
+                steps.append([kind])
+        out.append({"kind": "session", "backend": "torch" if i % 4 == 3 else "numpy", "U": U, "f": F, "steps": steps,
+                    "qseed": rng.randint(0, 10**9)})
+    # B/C: purity of the caller's arguments, reuse of argument objects, independence of successive results
+    for i in range(npure):
+        U = gen_universe(rng)
+        rel, fv, gv = gen_scopes(rng)
+        if not fv:
+            fv = [rng.randrange(6)]
+        out.append({"kind": "purity", "backend": "torch" if i % 4 == 3 else "numpy", "U": U,
+                    "f": gen_factor(rng, U, fv), "f2": gen_factor(rng, U, fv), "g": gen_factor(rng, U, gv, zeros=0.3),
+                    "qseed": rng.randint(0, 10**9)})
+    # G: factors over 9-10 variables out of 12 (Python set iteration order of >= 9 small ints / names)
+    for i in range(nbig):
+        cards = [2] * 7 + [1] * 3 + [3, 2]
+        rng.shuffle(cards)
+        U = gen_universe(rng, nv=12, cards=cards)
+        U["vstyle"] = rng.choice(["smallint", "smallint", "int", "str", "mixed"])
+        fv = rng.sample(range(12), rng.choice([9, 10]))
+        gv = rng.sample(range(12), rng.choice([9, 9, 10]))
+        if rng.random() < 0.3:
+            gv = rng.sample(fv, rng.randint(2, 9))         # nested divisor
+        out.append({"kind": "big", "backend": "torch" if i % 4 == 3 else "numpy", "U": U, "rel": "big",
+                    "f": gen_factor(rng, U, fv, zeros=0.1), "g": gen_factor(rng, U, gv, zeros=0.3), "neg": False,
+                    "qseed": rng.randint(0, 10**9)})
+    # H: magnitudes 2**-480 .. 2**480 per entry (numpy only: torch.Tensor(list) goes through float32)
+    for i in range(nmag):
+        U = gen_universe(rng)
+        rel, fv, gv = gen_scopes(rng)
+        F, G = gen_factor(rng, U, fv, zeros=0.2), gen_factor(rng, U, gv, zeros=0.3)
+        lo, hi = rng.choice([(-480, 480), (-480, -400), (400, 480), (-200, 60), (50, 60)])
+        for H_ in (F, G):
+            H_["exp"] = [rng.randint(lo, hi) for _ in H_["vals"]]
+        out.append({"kind": "mag", "backend": "numpy", "U": U, "rel": rel, "f": F, "g": G, "neg": False,
+                    "qseed": rng.randint(0, 10**9)})
     for i in range(nerr):
         U = gen_universe(rng)
         fv = rng.sample(range(6), rng.randint(1, 3))
-        out.append({"kind": "err", "backend": "numpy", "U": U, "f": gen_factor(rng, U, fv),
+        out.append({"kind": "err", "backend": "torch" if i % 4 == 3 else "numpy", "U": U, "f": gen_factor(rng, U, fv),
                     "qseed": rng.randint(0, 10**9)})
     return out
 
@@ -266,13 +357,21 @@ def ravel(cards, idx):
     return n
 
 
+def fval(F, n):
+    """exact value of entry n of a factor spec: vals[n]/den, times 2**exp[n] in the magnitude stream"""
+    x = Fr(F["vals"][n], F["den"])
+    if "exp" in F:
+        x *= Fr(2) ** F["exp"][n]
+    return x
+
+
 def spec_table(U, F):
     """{frozenset((var, state Z)) : Fraction} for a factor spec"""
     cards = [U["card"][v] for v in F["vars"]]
     t = {}
     for n, idx in enumerate(itertools.product(*[range(c) for c in cards])):
         key = frozenset((v, U["states"][v][i]) for v, i in zip(F["vars"], idx))
-        t[key] = Fr(F["vals"][n], F["den"])
+        t[key] = fval(F, n)
     return t
 
 
@@ -293,19 +392,30 @@ def xdiv(a, b):
     return a / b
 
 
+def sn_order(U, F):
+    vs = list(F["vars"])
+    return vs[::-1] if U.get("snrev") else vs
+
+
+def state_py(U, v, z):
+    if U["sstyle"] == "bool" and U["card"][v] <= 2 and z in (0, 1):
+        return bool(z)
+    return pyname(z)
+
+
 def wire(U, F):
-    sn = [] if U["sstyle"] == "default" else [[v, U["states"][v]] for v in F["vars"]]
-    return [F["vars"], [U["card"][v] for v in F["vars"]], [Fr(x, F["den"]) for x in F["vals"]], sn]
+    sn = [] if U["sstyle"] == "default" else [[v, U["states"][v]] for v in sn_order(U, F)]
+    return [F["vars"], [U["card"][v] for v in F["vars"]], [fval(F, n) for n in range(len(F["vals"]))], sn]
 
 
 def build(U, F):
     from pgmpy.factors.discrete import DiscreteFactor
     vs = [vname(U["vstyle"], v) for v in F["vars"]]
     cards = [U["card"][v] for v in F["vars"]]
-    vals = [x / F["den"] for x in F["vals"]]
+    vals = [float(fval(F, n)) for n in range(len(F["vals"]))]
     if U["sstyle"] == "default":
         return DiscreteFactor(vs, cards, vals)
-    sn = {vname(U["vstyle"], v): [pyname(z) for z in U["states"][v]] for v in F["vars"]}
+    sn = {vname(U["vstyle"], v): [state_py(U, v, z) for z in U["states"][v]] for v in sn_order(U, F)}
     return DiscreteFactor(vs, cards, vals, state_names=sn)
 
 
@@ -358,7 +468,16 @@ def same_val(a, b):
         if b == "nan":
             return a != a
         return a == float(b)
+    if _REL[0]:
+        # magnitude stream: purely RELATIVE to the exact value
+        b = Fr(b)
+        if b == 0:
+            return a == 0
+        return abs(Fr(a) - b) <= Fr(1, 10**9) * abs(b) if a == a and abs(a) != float("inf") else False
     return common.approx(a, b)
+
+
+_REL = [False]
 
 
 def cmp_literal(U, phi, m):
@@ -407,7 +526,11 @@ class Ctx:
         if err:
             st, code = self.drv.call_e(model_entry, model_args(None))
             self.tags.append("error=" + err)
-            if st != "err" or code != ERR[err]:
+            same_enum = st == "err" and code == ERR[err]
+            if (not same_enum and self.case.get("backend") == "torch" and err == "TypeError" and (st, code) == ("err", 3)
+                    and name.startswith("reduce")):
+                same_enum = True     # a str used as an index: IndexError in numpy, TypeError in torch - both "bad state"
+            if not same_enum:
                 return bad("impl!=model:%s:error" % name, {"impl": err, "model": [st, code], "ops": operands})
             if [snapshot(o) for o in objs] != snaps:
                 return bad("operand-mutated:%s:on-error" % name, {"ops": operands})
@@ -619,7 +742,7 @@ def run_point_ops(ctx, F, rng):
     size = 1
     for c in cards:
         size *= c
-    if U["vstyle"] == "str":
+    if U["vstyle"] in STR_VSTYLES:
         for _ in range(3):
             idx = [rng.randrange(c) for c in cards]
             byname = rng.random() < 0.6
@@ -708,8 +831,11 @@ def permute_factor(U, F, perm):
         old = [0] * len(perm)
         for k, p in enumerate(perm):
             old[p] = idx[k]
-        vals.append(F["vals"][ravel(cards, old)])
-    return {"vars": vs, "vals": vals, "den": F["den"]}
+        vals.append(ravel(cards, old))
+    out = {"vars": vs, "vals": [F["vals"][n] for n in vals], "den": F["den"]}
+    if "exp" in F:
+        out["exp"] = [F["exp"][n] for n in vals]
+    return out
 
 
 # ------------------------------------------------------------------ case runners
@@ -781,7 +907,7 @@ def run_folds(ctx, Fs, rng):
     union = []
     for F in Fs:
         union += [v for v in F["vars"] if v not in union]
-    if union and ctx.case["backend"] == "numpy":
+    if union:
         out = rng.sample(union, rng.randint(0, len(union)))
         spec = {}
         for k in all_named(U, union):
@@ -791,6 +917,20 @@ def run_folds(ctx, Fs, rng):
             kk = restrict(k, out)
             spec[kk] = spec.get(kk, 0) + x
         N = lambda v: vname(U["vstyle"], v)
+        used_types = {type(N(v)) for v in union}
+        if len(used_types) > 1:
+            # opt_einsum.contract documents that its labels must be hashable AND comparable: variable names of
+            # mutually unorderable types are outside the domain of this one route (stated in RULE)
+            try:
+                factor_sum_product([N(v) for v in out], [build(U, F) for F in Fs])
+                rejected = False
+            except TypeError as e:
+                if "comparable" not in str(e):
+                    raise
+                rejected = True
+            if rejected:
+                ctx.tags.append("factor_sum_product:unorderable-names-rejected-by-opt_einsum")
+                return None
         b = ctx.op("factor_sum_product", Fs, lambda o: factor_sum_product([N(v) for v in out], o),
                    "c04_factor_sum_product", lambda r: [out, ws], spec, mutate=False)
         if b:
@@ -921,6 +1061,11 @@ def run_eq(case, drv):
                 exp = all(abs(Fr(q) - Fr(p)) <= ATOL + RTOL * abs(Fr(p)) for p, q in zip(xw[2], yw[2]))
                 if got != exp:
                     return bad("impl!=spec:eq-tolerance", {"variant": tag, "dir": d, "impl": got, "expected": exp})
+            for A in ((0.0, 2.0 ** -10, 1.0) if d == "ab" else (0.0,)):
+                g2 = bool(x.__eq__(y, atol=A))
+                m2 = bool(drv.call("c04_eq", [Fr(A), RTOL, xw, yw]))
+                if g2 != m2:
+                    return bad("impl!=model:eq:atol=%g" % A, {"variant": tag, "dir": d, "impl": g2, "model": m2, "a": xw, "b": yw})
             if got != (not (x != y)):
                 return bad("impl!=spec:ne", {"variant": tag})
             if (snapshot(x), snapshot(y)) != (sx, sy):
@@ -982,6 +1127,32 @@ def run_err(case, drv):
         ("reduce-out-of-range", lambda o: o[0].reduce([(N(v0), 50)], inplace=False, show_warnings=False), "c04_reduce", [fw, [[v0, 50]]]),
         ("reduce-unknown-str", lambda o: o[0].reduce([(N(v0), "s7777")], inplace=False, show_warnings=False), "c04_reduce", [fw, [[v0, STR0 + 7777]]]),
     ]
+    st0 = U["states"][v0][0]
+    later = [
+        ("marginalize-later-absent", lambda o, ip: o[0].marginalize([N(v0), N(absent)], inplace=ip), "c04_marginalize", [fw, [v0, absent]]),
+        ("maximize-later-absent", lambda o, ip: o[0].maximize([N(v0), N(absent)], inplace=ip), "c04_maximize", [fw, [v0, absent]]),
+        ("reduce-later-absent", lambda o, ip: o[0].reduce([(N(v0), state_py(U, v0, st0)), (N(absent), 0)], inplace=ip), "c04_reduce",
+         [fw, [[v0, st0], [absent, 0]]]),
+    ]
+    if len(fv) >= 2:
+        v1 = fv[1]
+        # a later bad STATE: out of place only (in place pgmpy has already rebound variables/cardinality: observation)
+        tests.append(("reduce-later-bad-state", lambda o: o[0].reduce([(N(v0), state_py(U, v0, st0)), (N(v1), 77)], inplace=False, show_warnings=False),
+                      "c04_reduce", [fw, [[v0, st0], [v1, 77]]]))
+    for name, call, entry, args in later:
+        tests.append((name, (lambda o, c_=call: c_(o, False)), entry, args))
+        # in place: rejected before anything is touched => the object is exactly as before
+        obj = build(U, F)
+        sn0 = snapshot(obj)
+        try:
+            call([obj], True)
+            return bad("impl!=model:%s:inplace-accepted" % name, {"f": F})
+        except ValueError:
+            pass
+        ctx.nops += 1
+        ctx.tags.append("op=" + name + "-inplace")
+        if snapshot(obj) != sn0:
+            return bad("object-changed-by-rejected-call:%s" % name, {"f": F})
     for name, call, entry, args in tests:
         b = ctx.op(name, [F], call, entry, lambda r, a=args: a, None)
         if b:
@@ -1341,31 +1512,470 @@ def run_fdict(case, drv):
     # ---- get_factors / product
     if set(map(id, y.get_factors())) != set(map(id, y.values())):
         return bad("impl!=spec:FactorDict.get_factors", {})
-    # ---- from_dataframe: empirical counts of each marginal (numpy backend; needs pandas + sklearn)
-    if case["backend"] == "numpy" and case["qseed"] % 4 == 0:
+    # ---- from_dataframe: empirical counts of each marginal; the index is never data; column order / dtypes
+    if case["backend"] == "numpy" and case["qseed"] % 3 == 0:
         import pandas as pd
         cols = sorted({v for F in D1 for v in F["vars"]})
         nrows = rng.randint(5, 25)
         rows = [[rng.randrange(U["card"][v]) for v in cols] for _ in range(nrows)]
-        df = pd.DataFrame(rows, columns=["c%d" % v for v in cols])
-        margs = [tuple("c%d" % v for v in F["vars"]) for F in D2]
+        colnames = {v: NAME_TABLES["substr"][v] for v in cols}          # x1 / x10 / x ...: one a prefix of another
+        data = {}
+        dstyle = {}
+        for j, v in enumerate(cols):
+            col = [r_[j] for r_ in rows]
+            st = rng.choice(["int", "str", "bool", "cat-unused", "cat-int-unused"])
+            if st == "bool" and U["card"][v] > 2:
+                st = "int"
+            dstyle[v] = st
+            lab = {"int": lambda i: i, "str": lambda i: "L%d" % (9 - i), "bool": lambda i: bool(i),
+                   "cat-unused": lambda i: "L%d" % (9 - i), "cat-int-unused": lambda i: i}[st]
+            vals_ = [lab(i) for i in col]
+            if st == "cat-unused":
+                vals_ = pd.Categorical(vals_, categories=sorted(set(vals_)) + ["unused"])
+            elif st == "cat-int-unused":
+                vals_ = pd.Categorical(vals_, categories=list(range(U["card"][v] + 2)))
+            data[colnames[v]] = vals_
+        corder = list(cols) + []
+        rng.shuffle(corder)
+        df = pd.DataFrame({colnames[v]: data[colnames[v]] for v in corder})
+        df["unused_extra_column"] = 7
+        istyle = rng.choice(["range", "shifted", "permuted", "gapped", "duplicate", "string"])
+        if istyle == "shifted":
+            df.index = range(100, 100 + nrows)
+        elif istyle == "permuted":
+            df = df.iloc[rng.sample(range(nrows), nrows)]
+        elif istyle == "gapped":
+            df.index = [3 * i + 1 for i in range(nrows)]
+        elif istyle == "duplicate":
+            df.index = [i // 2 for i in range(nrows)]
+        elif istyle == "string":
+            df.index = ["r%d" % (nrows - i) for i in range(nrows)]
+        df_before = df.copy(deep=True)
+        margs = [tuple(colnames[v] for v in F["vars"]) for F in D2]
+        margs_before = list(margs)
         b, fd = guarded("from_dataframe", lambda: FactorDict.from_dataframe(df, margs))
         if b:
             return b
         nops += 1
-        tags.append("op=FactorDict.from_dataframe")
+        tags += ["op=FactorDict.from_dataframe", "df-index=" + istyle] + ["df-dtype=" + x for x in sorted(set(dstyle.values()))]
+        if not df.equals(df_before) or list(df.index) != list(df_before.index) or margs != margs_before:
+            return bad("argument-mutated:FactorDict.from_dataframe", {})
+        inv = {colnames[v]: v for v in cols}
+        rowlist = df_before.to_dict("records")
         for mg, F in zip(margs, D2):
             phi = fd[mg]
             a = npvals(phi)
-            for idx in itertools.product(*[range(d_) for d_ in a.shape]):
-                names = {v: phi.state_names[v][i] for v, i in zip(phi.variables, idx)}
-                cnt = sum(1 for rw in rows if all(rw[cols.index(int(v[1:]))] == names[v] for v in names))
-                if float(a[idx]) != cnt:
-                    return bad("impl!=spec:FactorDict.from_dataframe", {"marginal": mg, "at": str(names), "impl": float(a[idx]), "count": cnt})
             if list(phi.variables) != list(mg):
                 return bad("impl!=spec:FactorDict.from_dataframe:scope", {"impl": list(phi.variables), "marginal": mg})
+            for idx in itertools.product(*[range(d_) for d_ in a.shape]):
+                names = {v: phi.state_names[v][i] for v, i in zip(phi.variables, idx)}
+                cnt = sum(1 for rw in rowlist if all(rw[v] == names[v] for v in names))
+                if float(a[idx]) != cnt:
+                    return bad("impl!=spec:FactorDict.from_dataframe", {"marginal": mg, "at": str(names), "impl": float(a[idx]),
+                                                                       "count": cnt, "index": istyle, "dtypes": dstyle})
+            if float(a.sum()) != nrows:
+                return bad("impl!=spec:FactorDict.from_dataframe:total", {"impl": float(a.sum()), "rows": nrows})
     return ok(nontrivial=permuted >= 1, key=common.canon_key(["fdict", U, D1, D2, case["backend"]]), tags=tags,
               note="%d ops" % nops)
+
+
+# ------------------------------------------------------------------ A/C/J: session on one object
+def build_from_wire(U, w):
+    from pgmpy.factors.discrete import DiscreteFactor
+    N = lambda v: vname(U["vstyle"], v)
+    vals = [float(x) for x in w[2]]
+    if not w[3]:
+        return DiscreteFactor([N(v) for v in w[0]], w[1], vals)
+    return DiscreteFactor([N(v) for v in w[0]], w[1], vals,
+                          state_names={N(v): [state_py(U, v, z) for z in l] for v, l in w[3]})
+
+
+def wire_of_model(m):
+    """model result [vars card states shape data] -> constructor wire [vars card values states]"""
+    data = []
+    for x in m[4]:
+        y = mval(x)
+        if isinstance(y, str):
+            return None
+        data.append(y)
+    return [m[0], m[1], data, m[2]]
+
+
+def _np_scalar_finding(case, phi):
+    """numpy backend: a factor whose whole scope was eliminated holds a numpy SCALAR; identity_factor / set_value
+    reject it (reported to the coordinator; key used only for exactly this class)"""
+    import numpy as np
+    if case["backend"] == "numpy" and len(phi.variables) == 0 and isinstance(phi.values, np.generic):
+        return "numpy-scalar-values-after-full-elimination"
+    return None
+
+
+def run_session(case, drv):
+    import copy as _c
+    U, F = case["U"], case["f"]
+    N = lambda v: vname(U["vstyle"], v)
+    phi = build(U, F)
+    cur = drv.call("c04_mk", wire(U, F))
+    cur = wire_of_model(cur)
+    tags = ["session", "backend=" + case["backend"], "vars=" + U["vstyle"], "states=" + U["sstyle"]]
+    hv = [[v, hash(N(v))] for v in range(6)]
+    prev_hash, prev_key = hash(phi), drv.call("c04_hash", [hv, cur])
+    nops = 0
+    for step in case["steps"]:
+        kind = step[0]
+        entry, args, others = None, None, []
+        if kind in ("product", "sum", "divide"):
+            G = step[1]
+            g = build(U, G)
+            gsnap = snapshot(g)
+            others = [(g, gsnap)]
+            if kind == "divide" and not set(G["vars"]) <= set(cur[0]):
+                continue
+            {"product": phi.product, "sum": phi.sum, "divide": phi.divide}[kind](g, inplace=True)
+            pv = [vid(U["vstyle"], v) for v in phi.variables]
+            if kind == "product":
+                entry, args = "c04_product", [cur, wire(U, G), pv]
+            elif kind == "sum":
+                entry, args = "c04_sum", [cur, wire(U, G), pv[len(cur[0]):], sorted(v for v in pv if v not in G["vars"])]
+            else:
+                entry, args = "c04_divide", [cur, wire(U, G), sorted(v for v in cur[0] if v not in G["vars"])]
+        elif kind in ("marginalize", "maximize"):
+            X = [v for v in step[1] if v in cur[0]]
+            arg = [N(v) for v in X]
+            getattr(phi, kind)(arg, inplace=True)
+            entry, args = "c04_" + kind, [cur, X]
+        elif kind == "reduce":
+            ev = [p for p in step[1] if p[0] in cur[0]]
+            phi.reduce([(N(v), state_py(U, v, z)) for v, z in ev], inplace=True)
+            entry, args = "c04_reduce", [cur, ev]
+        elif kind == "normalize":
+            if sum(cur[2]) == 0:
+                continue
+            phi.normalize(inplace=True)
+            entry, args = "c04_normalize", cur
+        elif kind == "scale":
+            phi.product(step[1], inplace=True)
+            entry, args = "c04_product_scalar", [cur, Fr(step[1])]
+        elif kind == "shift":
+            phi.sum(step[1], inplace=True)
+            entry, args = "c04_sum_scalar", [cur, Fr(step[1])]
+        elif kind == "set_value":
+            if U["vstyle"] not in STR_VSTYLES or len(step[1]) < len(cur[0]):
+                continue
+            idx = step[1][:len(cur[0])]
+            idx = [i % c for i, c in zip(idx, cur[1])]
+            try:
+                phi.set_value(float(step[2]), **{N(v): i for v, i in zip(cur[0], idx)})
+            except TypeError as e:
+                return bad("impl!=spec:session:set_value:raised", {"exc": repr(e)[:200], "steps": case["steps"], "f": F},
+                           finding=_np_scalar_finding(case, phi))
+            entry, args = "c04_set_value", [cur, Fr(step[2]), [[v, i] for v, i in zip(cur[0], idx)]]
+            if U["sstyle"] != "default" and any(isinstance(state_py(U, v, z), int) and not isinstance(state_py(U, v, z), bool)
+                                                  for v in cur[0] for z in U["states"][v]):
+                pass
+        else:  # observe: nothing below may change the object
+            before = snapshot(phi)
+            str(phi), repr(phi), phi.scope(), phi.get_cardinality(list(phi.variables)), phi.copy(), hash(phi)
+            phi == phi.copy()
+            try:
+                phi.identity_factor()
+            except AttributeError as e:
+                return bad("impl!=spec:session:identity_factor:raised", {"exc": repr(e)[:200], "steps": case["steps"], "f": F},
+                           finding=_np_scalar_finding(case, phi))
+            if len(phi.variables) and case["backend"] == "numpy" and sum(cur[2]) > 0 and min(cur[2]) >= 0:
+                df = phi.sample(3)
+                if list(df.columns) != list(phi.variables):
+                    return bad("impl!=spec:sample-columns", {"impl": list(df.columns)})
+            if snapshot(phi) != before:
+                return bad("operand-mutated:observe", {"step": step})
+            tags.append("step=observe")
+            continue
+        nops += 1
+        tags.append("step=" + kind)
+        m = drv.call_e(entry, args)
+        if m[0] != "ok":
+            return bad("impl!=model:session:%s:model-error" % kind, {"model": m, "step": step, "cur": cur})
+        m = m[1]
+        if kind == "set_value" or kind == "normalize" or kind == "divide" or True:
+            d = cmp_literal(U, phi, m)
+            if d:
+                return bad("impl!=model:session:%s:%s" % (kind, d["what"]), {"diff": d, "step": step, "steps": case["steps"], "f": F})
+        for g, gsnap in others:
+            if snapshot(g) != gsnap:
+                return bad("operand-mutated:session:%s" % kind, {"step": step})
+            if g.values is phi.values or g.variables is phi.variables or g.state_names is phi.state_names:
+                return bad("result-aliases-operand:session:%s" % kind, {"step": step})
+        nxt = wire_of_model(m)
+        if nxt is None:
+            break
+        cur = nxt
+        # the object in its CURRENT state behaves like a freshly built one
+        fresh = build_from_wire(U, cur)
+        if not (phi == fresh and fresh == phi):
+            return bad("impl!=spec:session:not-equal-to-fresh-object", {"step": step, "cur": cur})
+        h, k = hash(phi), drv.call("c04_hash", [hv, cur])
+        if k != prev_key and h == prev_hash:      # a changed object must not keep its old hash (stale cache)
+            return bad("impl!=model:session:hash-after-%s" % kind, {"impl_same": True, "model_same": False})
+        prev_hash, prev_key = h, k
+    return ok(nontrivial=nops >= 3, key=common.canon_key(["session", U, F, case["steps"], case["backend"]]), tags=tags,
+              note="%d ops" % nops)
+
+
+# ------------------------------------------------------------------ B/C: argument purity, reuse, result independence
+def run_purity(case, drv):
+    import copy as _c
+    import numpy as np
+    from pgmpy.factors.discrete import DiscreteFactor
+    U, F, F2, G = case["U"], case["f"], case["f2"], case["g"]
+    rng = random.Random(case["qseed"])
+    N = lambda v: vname(U["vstyle"], v)
+    torch_ = case["backend"] == "torch"
+    tags = ["purity", "backend=" + case["backend"]]
+    nops = 0
+    fw, f2w, gw = wire(U, F), wire(U, F2), wire(U, G)
+    mF = drv.call("c04_mk", fw)
+    fv = F["vars"]
+    cards = [U["card"][v] for v in fv]
+    flat = [float(fval(F, n)) for n in range(len(F["vals"]))]
+    sn = None if U["sstyle"] == "default" else {N(v): [state_py(U, v, z) for z in U["states"][v]] for v in sn_order(U, F)}
+
+    def deep(x):
+        if hasattr(x, "detach"):
+            return ("tensor", x.detach().cpu().numpy().copy().tolist())
+        if isinstance(x, np.ndarray):
+            return ("nd", x.tolist(), x.dtype.str, x.shape)
+        if isinstance(x, dict):
+            return ("dict", [(repr(k), deep(v)) for k, v in x.items()])
+        if isinstance(x, (list, tuple)):
+            return (type(x).__name__, [deep(v) for v in x])
+        return repr(x)
+
+    def wreck(phi):
+        phi.values += 1
+        if len(phi.variables):
+            phi.cardinality[0] = 99
+            k0 = phi.variables[0]
+            if isinstance(phi.state_names.get(k0), list):
+                phi.state_names[k0] = ["zz"]
+            phi.variables[0] = "__w__"
+        phi.variables.append("__extra__")
+        phi.state_names["__new__"] = [1]
+
+    # ---- constructor arguments in every container form
+    forms = ["list", "tuple", "ndarray-flat", "ndarray-shaped", "other.values", "reused-buffer"]
+    if torch_:
+        forms.append("torch-tensor")
+    for form in forms:
+        a_vars = [N(v) for v in fv] if rng.random() < 0.7 else tuple(N(v) for v in fv)
+        a_card = list(cards) if rng.random() < 0.5 else np.array(cards)
+        other = None
+        if form == "list":
+            a_vals = list(flat)
+        elif form == "tuple":
+            a_vals = tuple(flat)
+        elif form == "ndarray-flat":
+            a_vals = np.ascontiguousarray(np.array(flat, dtype=np.float64))
+        elif form == "ndarray-shaped":
+            a_vals = np.array(flat, dtype=np.float64).reshape(cards)
+        elif form == "other.values":
+            other = build(U, F)
+            a_vals = other.values
+        elif form == "reused-buffer":
+            a_vals = np.array(flat, dtype=np.float64)
+        else:
+            import torch
+            a_vals = torch.tensor(flat, dtype=torch.float64)
+        a_sn = None if sn is None else {k: list(v) for k, v in sn.items()}
+        args = [a_vars, a_card, a_vals, a_sn]
+        before = deep(args)
+        phi = DiscreteFactor(a_vars, a_card, a_vals, **({} if a_sn is None else {"state_names": a_sn}))
+        nops += 1
+        tags.append("ctor-values=" + form)
+        d = cmp_literal(U, phi, mF)
+        if d:
+            return bad("impl!=model:constructor:%s:%s" % (form, d["what"]), {"diff": d, "f": F})
+        if deep(args) != before:
+            return bad("argument-mutated:constructor:%s" % form, {"f": F})
+        if phi.variables is a_vars or phi.cardinality is a_card or phi.values is a_vals or (a_sn is not None and phi.state_names is a_sn):
+            return bad("result-aliases-argument:constructor:%s" % form, {"f": F})
+        snap_phi = snapshot(phi)
+        if form == "reused-buffer":
+            a_vals += 7.0                      # the caller goes on using its buffer
+            a_vals[...] = 0.0
+            if snapshot(phi) != snap_phi:
+                return bad("result-aliases-argument:constructor:reused-buffer", {"f": F})
+            a_vals[...] = np.array(flat)
+            before = deep(args)
+        # second object from the SAME argument objects, then wreck the first
+        phi_b = DiscreteFactor(a_vars, a_card, a_vals, **({} if a_sn is None else {"state_names": a_sn}))
+        wreck(phi)
+        if deep(args) != before:
+            return bad("argument-mutated-via-result:constructor:%s" % form, {"f": F})
+        if other is not None and cmp_literal(U, other, mF):
+            return bad("operand-mutated-via-result:constructor:other.values", {"f": F})
+        d = cmp_literal(U, phi_b, mF)
+        if d:
+            return bad("impl!=model:constructor:%s:second-object:%s" % (form, d["what"]), {"diff": d, "f": F})
+    # ---- method arguments: unchanged, reusable on another factor; successive results independent
+    X = rng.sample(fv, rng.randint(0, len(fv)))
+    ev = [(v, rng.choice(U["states"][v])) for v in rng.sample(fv, rng.randint(0, len(fv)))]
+    ev_names = [(N(v), state_py(U, v, z)) for v, z in ev]
+    nonneg = all(x >= 0 for x in F["vals"] + F2["vals"])
+    size = _prod(cards)
+    methods = [
+        ("marginalize", lambda p, a: p.marginalize(a, inplace=False), lambda: [N(v) for v in X], "c04_marginalize", lambda w: [w, X]),
+        ("marginalize-tuple", lambda p, a: p.marginalize(a, inplace=False), lambda: tuple(N(v) for v in X), "c04_marginalize", lambda w: [w, X]),
+        ("reduce", lambda p, a: p.reduce(a, inplace=False), lambda: list(ev_names), "c04_reduce", lambda w: [w, [list(p_) for p_ in ev]]),
+        ("product", lambda p, a: p.product(a, inplace=False), lambda: build(U, G), "c04_product", None),
+        ("sum", lambda p, a: p.sum(a, inplace=False), lambda: build(U, G), "c04_sum", None),
+        ("copy", lambda p, a: p.copy(), lambda: None, "c04_mk", lambda w: w),
+        ("identity_factor", lambda p, a: p.identity_factor(), lambda: None, "c04_identity", lambda w: w),
+    ]
+    if nonneg:
+        methods.append(("maximize", lambda p, a: p.maximize(a, inplace=False), lambda: [N(v) for v in X], "c04_maximize", lambda w: [w, X]))
+    for name, call, mkarg, entry, margs in methods:
+        arg = mkarg()
+        before = snapshot(arg) if hasattr(arg, "variables") else deep(arg)
+        after = lambda: snapshot(arg) if hasattr(arg, "variables") else deep(arg)
+        p1, p2 = build(U, F), build(U, F2)
+        s1, s2 = snapshot(p1), snapshot(p2)
+        r1 = call(p1, arg)
+        nops += 1
+        tags.append("method=" + name)
+
+        def model_for(w, r):
+            if name == "product":
+                return drv.call("c04_product", [w, gw, vids(U, r)])
+            if name == "sum":
+                return drv.call("c04_sum", [w, gw, vids(U, r)[len(fv):], sorted(v for v in vids(U, r) if v not in G["vars"])])
+            return drv.call(entry, margs(w))
+
+        d = cmp_literal(U, r1, model_for(fw, r1))
+        if d:
+            return bad("impl!=model:purity:%s:%s" % (name, d["what"]), {"diff": d, "f": F})
+        if after() != before:
+            return bad("argument-mutated:%s" % name, {"f": F, "arg": str(before)[:200]})
+        if hasattr(arg, "variables") and (r1.values is arg.values or r1.variables is arg.variables or r1.state_names is arg.state_names):
+            return bad("result-aliases-argument:%s" % name, {"f": F})
+        wreck(r1)
+        if after() != before or snapshot(p1) != s1:
+            return bad("argument-mutated-via-result:%s" % name, {"f": F})
+        # the same call again: a distinct, unaffected result
+        r1b = call(p1, arg)
+        if r1b is r1 or r1b.values is r1.values or r1b.variables is r1.variables:
+            return bad("successive-results-share:%s" % name, {"f": F})
+        d = cmp_literal(U, r1b, model_for(fw, r1b))
+        if d:
+            return bad("impl!=model:purity:%s:second-result:%s" % (name, d["what"]), {"diff": d, "f": F})
+        # the same argument object on another factor
+        r2 = call(p2, arg)
+        d = cmp_literal(U, r2, model_for(f2w, r2))
+        if d:
+            return bad("impl!=model:purity:%s:reused-argument:%s" % (name, d["what"]), {"diff": d, "f": F2})
+        if after() != before or snapshot(p2) != s2:
+            return bad("argument-mutated:%s:reuse" % name, {"f": F2})
+    # get_cardinality / assignment arguments and results
+    p1 = build(U, F)
+    s1 = snapshot(p1)
+    q = [N(v) for v in X]
+    qb = deep(q)
+    gc = p1.get_cardinality(q)
+    gc[N(fv[0])] = 1234
+    idxs = np.array([rng.randrange(size) for _ in range(3)])
+    ib = deep(idxs)
+    asg = p1.assignment(idxs if not torch_ else idxs.tolist())
+    for row in asg:
+        row.append(("x", 0))
+    if deep(q) != qb or deep(idxs) != ib or snapshot(p1) != s1:
+        return bad("argument-mutated:get_cardinality/assignment", {"f": F})
+    sc = p1.scope()
+    if [vid(U["vstyle"], v) for v in sc] != fv:
+        return bad("impl!=model:scope", {})
+    return ok(nontrivial=len(fv) >= 2, key=common.canon_key(["purity", U, F, F2, G, case["backend"]]), tags=tags,
+              note="%d ops" % nops)
+
+
+# ------------------------------------------------------------------ G: >= 9 variables in one factor
+def run_big(case, drv):
+    ctx = Ctx(case, drv)
+    rng = random.Random(case["qseed"])
+    U, F, G = case["U"], case["f"], case["g"]
+    N = lambda v: vname(U["vstyle"], v)
+    fw = wire(U, F)
+    fv = F["vars"]
+    tf = spec_table(U, F)
+    if set(G["vars"]) <= set(fv) or _prod(U["card"][v] for v in set(fv) | set(G["vars"])) <= 1600:
+        b = run_pair_ops(ctx, F, G, rng, light=True)
+        if b:
+            return b
+    for _ in range(2):
+        X = rng.sample(fv, rng.randint(1, 4))
+        keep = [v for v in fv if v not in X]
+        spec, specm = {}, {}
+        for k, x in tf.items():
+            kk = restrict(k, keep)
+            spec[kk] = spec.get(kk, 0) + x
+            specm[kk] = max(specm.get(kk, x), x)
+        Xn = [N(v) for v in X]
+        b = ctx.op("marginalize", [F], lambda o: o[0].marginalize(list(Xn), inplace=False), "c04_marginalize",
+                   lambda r: [fw, X], spec, inplace_call=lambda o: o[0].marginalize(list(Xn), inplace=True))
+        if b:
+            return b
+        b = ctx.op("maximize", [F], lambda o: o[0].maximize(list(Xn), inplace=False), "c04_maximize",
+                   lambda r: [fw, X], specm)
+        if b:
+            return b
+        ev = [(v, rng.choice(U["states"][v])) for v in X]
+        evs = set(ev)
+        spec = {restrict(k, keep): x for k, x in tf.items() if evs <= k}
+        evn = [(N(v), state_py(U, v, z)) for v, z in ev]
+        b = ctx.op("reduce", [F], lambda o: o[0].reduce(list(evn), inplace=False), "c04_reduce",
+                   lambda r: [fw, [list(p) for p in ev]], spec)
+        if b:
+            return b
+    # == / hash against an axis-permuted copy
+    perm = list(range(len(fv)))
+    rng.shuffle(perm)
+    Fp = permute_factor(U, F, perm)
+    a, bb = build(U, F), build(U, Fp)
+    aw, bw = fw, wire(U, Fp)
+    hv = [[v, hash(N(v))] for v in range(12)]
+    for (x, xw, y, yw) in ((a, aw, bb, bw), (bb, bw, a, aw)):
+        got = bool(x == y)
+        m = bool(drv.call("c04_eq", [ATOL, RTOL, xw, yw]))
+        if got != m or not got:
+            return bad("impl!=model:eq:big", {"impl": got, "model": m})
+    ka, kb = drv.call("c04_hash", [hv, aw]), drv.call("c04_hash", [hv, bw])
+    if (hash(a) == hash(bb)) != (ka == kb):
+        return bad("impl!=model:hash:big", {"impl": hash(a) == hash(bb), "model": ka == kb})
+    ctx.tags += [">=9-variables", "nvars=%d+%d" % (len(fv), len(G["vars"])), "backend=" + case["backend"], "vars=" + U["vstyle"]]
+    return ok(nontrivial=True, key=common.canon_key(["big", U, F, G, case["backend"]]), tags=ctx.tags, note="%d ops" % ctx.nops)
+
+
+# ------------------------------------------------------------------ H: magnitudes (relative comparison)
+def run_mag(case, drv):
+    ctx = Ctx(case, drv)
+    rng = random.Random(case["qseed"])
+    U, F, G = case["U"], case["f"], case["g"]
+    b = run_pair_ops(ctx, F, G, rng)
+    if b:
+        return b
+    # == on tables of extreme magnitude: scaled by (1 + 2^-20) (inside rtol) and (1 + 2^-10) (outside)
+    a = build(U, F)
+    aw = wire(U, F)
+    for sh, name in ((20, "inside"), (10, "outside")):
+        Fs = dict(F)
+        Fs["vals"] = [x * (2**sh + 1) for x in F["vals"]]
+        Fs["exp"] = [e - sh for e in F["exp"]]
+        y, yw = build(U, Fs), wire(U, Fs)
+        for (p, pw, q, qw) in ((a, aw, y, yw), (y, yw, a, aw)):
+            got = bool(p == q)
+            m = bool(drv.call("c04_eq", [ATOL, RTOL, pw, qw]))
+            if got != m:
+                return bad("impl!=model:eq:magnitude-" + name, {"impl": got, "model": m, "f": F})
+    lo, hi = min(F["exp"] + G["exp"] + [0]), max(F["exp"] + G["exp"] + [0])
+    ctx.tags += ["magnitudes", "exp-range=%d..%d" % (lo // 100 * 100, hi // 100 * 100 + 99)]
+    return ok(nontrivial=True, key=common.canon_key(["mag", U, F, G]), tags=ctx.tags, note="%d ops" % ctx.nops)
 
 
 def run_case(case, drv):
@@ -1384,6 +1994,18 @@ def run_case(case, drv):
             return run_fset(case, drv)
         if case["kind"] == "fdict":
             return run_fdict(case, drv)
+        if case["kind"] == "session":
+            return run_session(case, drv)
+        if case["kind"] == "purity":
+            return run_purity(case, drv)
+        if case["kind"] == "big":
+            return run_big(case, drv)
+        if case["kind"] == "mag":
+            _REL[0] = True
+            try:
+                return run_mag(case, drv)
+            finally:
+                _REL[0] = False
         return run_err(case, drv)
     finally:
         if backend == "torch":
